@@ -714,6 +714,16 @@ class G:
                 i, j = r.sample(range(n), 2)
                 si, sj = (1, -1) if f == "bds" else (r.choice([1, -1]), r.choice([1, -1]))
                 cs.append(self.grid_con(n, [(i, si), (j, sj)], r.randint(-3, 3), r.choice(["=", ">=", ">="])))
+        chain = (f != "box" and r.random() < 0.5)
+        if chain:
+            # a chain of sum / difference relations between consecutive variables, bounds on one middle variable only:
+            # the relation between the two ends is implied only through the surviving variable in between
+            cs = []
+            for i in range(n - 1):
+                sj = -1 if f == "bds" else r.choice([1, 1, -1])
+                cs.append(self.grid_con(n, [(i, 1), (i + 1, sj)], r.randint(-2, 2), r.choice(["=", "=", ">="])))
+            mid = r.randrange(1, n - 1)
+            lo = r.randint(-2, 1); cs += [self.grid_con(n, [(mid, 1)], -lo), self.grid_con(n, [(mid, -1)], lo + r.randint(1, 5))]
         if not cs: cs = [self.grid_con(n, [(0, 1)], 0)]
         objs = {0: (kind, n)}
         lines = ["case %s" % cid, "new 0 %s %d cons %d %s" % (kind, n, len(cs), " ".join(cs))]
@@ -723,6 +733,8 @@ class G:
         d = r.choice([0, n - 1, r.randrange(n)])
         cand = [i for i in range(n) if i != d]
         vs = sorted(r.sample(cand, r.randint(1, min(2, len(cand) - 1)) if len(cand) > 1 else 1))
+        if chain:
+            d = r.choice([0, n - 1]); vs = [n - 1 - d] if r.random() < 0.7 else sorted(r.sample([i for i in range(n) if i != d], 1))
         lines.append("op 1 fold_space_dimensions %d %s %d" % (len(vs), " ".join(map(str, vs)), d))
         lines.append("op 2 expand_space_dimension %d 1" % r.randrange(n))
         lines.append(self.mutator(3, objs, ["map_space_dimensions"]))
